@@ -31,7 +31,7 @@
 (* published for replay on compiled code and on the stdlib (B1).             *)
 EXTENDS Integers, Sequences, FiniteSets, TLC, Json, IOUtils
 
-CONSTANTS Mode, Slice, MaxFields, MaxLen, Salts, SetVals
+CONSTANTS Mode, Slice, MaxFields, MaxLen, Salts, SetVals, MaxKw
 
 UNSET == -1     \* attribute does not exist (Python: AttributeError)
 DFLT  == 3      \* the field's default value
@@ -39,9 +39,6 @@ FAC   == 4      \* the value its default_factory returns
 SELF  == 9      \* the instance itself (recursive repr)
 
 Min(a, b) == IF a < b THEN a ELSE b
-RECURSIVE Sorted(_)
-Sorted(S) == IF S = {} THEN <<>>
-             ELSE LET m == CHOOSE x \in S : \A y \in S : x <= y IN <<m>> \o Sorted(S \ {m})
 Range(s) == {s[k] : k \in DOMAIN s}
 Sub(x, idx) == [k \in 1..Len(idx) |-> x[idx[k]]]
 
@@ -58,18 +55,23 @@ VaryO(keys) == {o \in AllO : \A k \in DOMAIN o \ keys : o[k] = DefaultO[k]}
 VaryF(keys, dflts) == {g \in AllF : g.dflt \in dflts /\ \A k \in (DOMAIN g \ keys) \ {"dflt"} : g[k] = DefaultF[k]}
 Lists(FS) == UNION {[1..n -> FS] : n \in 0..MaxFields}
 
+FlagsF == Lists(VaryF({"repr", "cmp", "hash"}, {"none"}))
+DefErrF == Lists(VaryF({"init", "kwo", "repr"}, {"none", "value", "factory", "mutable", "both"}))
 LatticeCfgs ==
-  CASE Slice = "sig"    -> {[id |-> 0, o |-> o, f |-> f] : o \in VaryO({"init", "kwo"}),
-                                                           f \in Lists(VaryF({"init", "kwo"}, {"none", "value", "factory"}))}
-    [] Slice = "flags"  -> {[id |-> 0, o |-> o, f |-> f] : o \in AllO, f \in Lists(VaryF({"repr", "cmp", "hash"}, {"none"}))}
-    [] Slice = "deferr" -> {[id |-> 0, o |-> o, f |-> f] : o \in VaryO({"init", "eq", "order", "kwo", "margs"}),
-                                                           f \in Lists(VaryF({"init", "kwo", "repr"}, {"none", "value", "factory", "mutable", "both"}))}
+  CASE Slice = "sig"     -> {[id |-> 0, o |-> o, f |-> f] : o \in VaryO({"init", "kwo"}),
+                                                            f \in Lists(VaryF({"init", "kwo"}, {"none", "value", "factory"}))}
+    [] Slice = "flags6"  -> {[id |-> 0, o |-> o, f |-> f] : o \in VaryO({"repr", "eq", "order", "uhash", "frozen", "margs"}), f \in FlagsF}
+    [] Slice = "flags8"  -> {[id |-> 0, o |-> o, f |-> f] : o \in AllO, f \in FlagsF}
+    [] Slice = "deferr3" -> {[id |-> 0, o |-> o, f |-> f] : o \in VaryO({"init", "eq", "order"}), f \in DefErrF}
+    [] Slice = "deferr5" -> {[id |-> 0, o |-> o, f |-> f] : o \in VaryO({"init", "eq", "order", "kwo", "margs"}), f \in DefErrF}
     [] OTHER -> {}
 
 Cases == IF Mode = "cases" THEN ndJsonDeserialize(IOEnv.CASES) ELSE <<>>
 Cfgs == IF Mode = "cases" THEN Range(Cases) ELSE LatticeCfgs
 
 FIdx(c) == 1..Len(c.f)
+\* the field indices that satisfy P, in declaration order
+Idx(c, P(_)) == SelectSeq([i \in 1..Len(c.f) |-> i], P)
 IsKwo(c, i) == c.o.kwo \/ c.f[i].kwo
 HasDflt(g) == g.dflt # "none"
 \* the declaration needs no field(...) call
@@ -77,9 +79,8 @@ Bare(g) == g.init /\ g.repr /\ g.cmp /\ g.hash = "none" /\ ~g.kwo /\ g.dflt \in 
 
 ---------------------------------------------------------------------------
 (* reference: class construction (dataclasses._process_class) *)
-StdInit(c) == Sorted({i \in FIdx(c) : c.f[i].init /\ ~IsKwo(c, i)})
-KwInit(c)  == Sorted({i \in FIdx(c) : c.f[i].init /\ IsKwo(c, i)})
-Params(c)  == Range(StdInit(c)) \cup Range(KwInit(c))
+StdInit(c) == Idx(c, LAMBDA i : c.f[i].init /\ ~IsKwo(c, i))
+KwInit(c)  == Idx(c, LAMBDA i : c.f[i].init /\ IsKwo(c, i))
 
 NonDefaultAfterDefault(c) ==
   LET s == StdInit(c) IN \E j, k \in 1..Len(s) : j < k /\ HasDflt(c.f[s[j]]) /\ ~HasDflt(c.f[s[k]])
@@ -90,8 +91,6 @@ RefDefError(c) ==
   ELSE IF c.o.order /\ ~c.o.eq THEN "ValueError"                        \* eq must be true if order is true
   ELSE IF c.o.init /\ NonDefaultAfterDefault(c) THEN "TypeError"        \* _init_fn
   ELSE "none"
-
-RefMatchArgs(c) == IF c.o.margs THEN [k |-> "names", v |-> StdInit(c)] ELSE [k |-> "absent", v |-> <<>>]
 
 \* the __hash__ action table of PEP 557 (no explicit __hash__ in the class): <<unsafe_hash, eq, frozen>>
 HashTable == [t \in BOOLEAN \X BOOLEAN \X BOOLEAN |->
@@ -105,35 +104,42 @@ HashTable == [t \in BOOLEAN \X BOOLEAN \X BOOLEAN |->
     [] t = <<TRUE, TRUE, TRUE>>    -> "add"]
 RefHashAction(c) == HashTable[<<c.o.uhash, c.o.eq, c.o.frozen>>]
 
-ReprF(c) == Sorted({i \in FIdx(c) : c.f[i].repr})
-CmpF(c)  == Sorted({i \in FIdx(c) : c.f[i].cmp})
-HashF(c) == Sorted({i \in FIdx(c) : IF c.f[i].hash = "none" THEN c.f[i].cmp ELSE c.f[i].hash = "true"})
+\* everything the generated methods are built from (computed once per configuration: state variable dv)
+Derive(c) == [std   |-> StdInit(c), kw |-> KwInit(c),
+              margs |-> IF c.o.margs THEN [k |-> "names", v |-> StdInit(c)] ELSE [k |-> "absent", v |-> <<>>],
+              reprf |-> Idx(c, LAMBDA i : c.f[i].repr),
+              cmpf  |-> Idx(c, LAMBDA i : c.f[i].cmp),
+              hashf |-> Idx(c, LAMBDA i : IF c.f[i].hash = "none" THEN c.f[i].cmp ELSE c.f[i].hash = "true"),
+              hact  |-> RefHashAction(c), deferr |-> RefDefError(c)]
+RefMatchArgs(c) == Derive(c).margs
 
 ---------------------------------------------------------------------------
 (* reference: calling the class with p positional arguments and the keyword *)
-(* set kw (field indices; 0 stands for a name that is no field at all)      *)
-Positional(c, p) == {StdInit(c)[j] : j \in 1..Min(p, Len(StdInit(c)))}
-RefBind(c, p, kw) ==
+(* set kw (field indices; 0 stands for a name that is no field at all);     *)
+(* d = Derive(c)                                                            *)
+ParamsD(d) == Range(d.std) \cup Range(d.kw)
+Positional(d, p) == {d.std[j] : j \in 1..Min(p, Len(d.std))}
+RefBind(c, d, p, kw) ==
   IF ~c.o.init THEN (IF p = 0 /\ kw = {} THEN "ok" ELSE "TypeError")     \* object.__init__ takes no arguments
-  ELSE IF p > Len(StdInit(c)) THEN "TypeError"                           \* too many positional arguments
-  ELSE IF ~(kw \subseteq Params(c)) THEN "TypeError"                     \* unexpected keyword (init=False fields included)
-  ELSE IF Positional(c, p) \cap kw # {} THEN "TypeError"                 \* multiple values
-  ELSE IF \E i \in Params(c) \ (Positional(c, p) \cup kw) : ~HasDflt(c.f[i]) THEN "TypeError"   \* missing argument
+  ELSE IF p > Len(d.std) THEN "TypeError"                                \* too many positional arguments
+  ELSE IF ~(kw \subseteq ParamsD(d)) THEN "TypeError"                    \* unexpected keyword (init=False fields included)
+  ELSE IF Positional(d, p) \cap kw # {} THEN "TypeError"                 \* multiple values
+  ELSE IF \E i \in ParamsD(d) \ (Positional(d, p) \cup kw) : ~HasDflt(c.f[i]) THEN "TypeError"   \* missing argument
   ELSE "ok"
 
 Val(i, s) == (i + s) % 3
-Supplied(c, p, kw) == Positional(c, p) \cup kw
-NewObj(c, p, kw, s) == [i \in FIdx(c) |->
+Supplied(d, p, kw) == Positional(d, p) \cup kw
+NewObj(c, d, p, kw, s) == LET sup == Supplied(d, p, kw) IN [i \in FIdx(c) |->
   IF ~c.o.init THEN (IF c.f[i].dflt = "value" THEN DFLT ELSE UNSET)     \* class attribute fallback only
-  ELSE IF i \in Supplied(c, p, kw) THEN Val(i, s)
+  ELSE IF i \in sup THEN Val(i, s)
   ELSE IF c.f[i].dflt = "value" THEN DFLT
   ELSE IF c.f[i].dflt = "factory" THEN FAC
   ELSE UNSET]
-FacCalls(c, p, kw) == IF c.o.init THEN Cardinality({i \in FIdx(c) : c.f[i].dflt = "factory" /\ i \notin Supplied(c, p, kw)}) ELSE 0
+FacCalls(c, d, p, kw) == IF c.o.init THEN Cardinality({i \in FIdx(c) : c.f[i].dflt = "factory" /\ i \notin Supplied(d, p, kw)}) ELSE 0
 \* where every __init__ parameter gets its value from: exactly one source when the call binds
-Sources(c, p, kw, i) == (IF i \in Positional(c, p) THEN {"pos"} ELSE {}) \cup (IF i \in kw THEN {"kw"} ELSE {})
-                        \cup (IF i \notin Supplied(c, p, kw) /\ HasDflt(c.f[i]) THEN {"default"} ELSE {})
-Canonical(c, p, kw) == p = 0 /\ kw = (IF c.o.init THEN Params(c) ELSE {})
+Sources(c, d, p, kw, i) == (IF i \in Positional(d, p) THEN {"pos"} ELSE {}) \cup (IF i \in kw THEN {"kw"} ELSE {})
+                           \cup (IF i \notin Supplied(d, p, kw) /\ HasDflt(c.f[i]) THEN {"default"} ELSE {})
+Canonical(c, d, p, kw) == p = 0 /\ kw = (IF c.o.init THEN ParamsD(d) ELSE {})
 
 ---------------------------------------------------------------------------
 (* reference: observations *)
@@ -153,35 +159,35 @@ Cmp(op, x, y) == CASE op = "eq" -> x = y
                    [] op = "gt" -> TupLt(y, x)
                    [] op = "ge" -> ~TupLt(x, y)
 
-ReprObs(c, x) == IF ~c.o.repr THEN [k |-> "default", v |-> <<>>]
-                 ELSE IF HasUnset(x, ReprF(c)) THEN [k |-> "unset", v |-> <<>>]
-                 ELSE [k |-> "fields", v |-> [j \in 1..Len(ReprF(c)) |-> <<ReprF(c)[j], x[ReprF(c)[j]]>>]]
-HashObs(c, x) == IF HasSelf(x) THEN [k |-> "skip", v |-> <<>>]
-                 ELSE IF RefHashAction(c) = "none" THEN [k |-> "unhashable", v |-> <<>>]
-                 ELSE IF RefHashAction(c) = "inherit" THEN [k |-> "identity", v |-> <<>>]
-                 ELSE IF HasUnset(x, HashF(c)) THEN [k |-> "unset", v |-> <<>>]
-                 ELSE [k |-> "tuple", v |-> Sub(x, HashF(c))]
-MatchObs(c, x) == IF ~c.o.margs THEN [k |-> "absent", v |-> <<>>]
-                  ELSE IF HasSelf(x) THEN [k |-> "skip", v |-> <<>>]
-                  ELSE IF HasUnset(x, StdInit(c)) THEN [k |-> "unset", v |-> <<>>]
-                  ELSE [k |-> "captures", v |-> Sub(x, StdInit(c))]
+ReprObs(c, d, x) == IF ~c.o.repr THEN [k |-> "default", v |-> <<>>]
+                    ELSE IF HasUnset(x, d.reprf) THEN [k |-> "unset", v |-> <<>>]
+                    ELSE [k |-> "fields", v |-> [j \in 1..Len(d.reprf) |-> <<d.reprf[j], x[d.reprf[j]]>>]]
+HashObs(c, d, x) == IF HasSelf(x) THEN [k |-> "skip", v |-> <<>>]
+                    ELSE IF d.hact = "none" THEN [k |-> "unhashable", v |-> <<>>]
+                    ELSE IF d.hact = "inherit" THEN [k |-> "identity", v |-> <<>>]
+                    ELSE IF HasUnset(x, d.hashf) THEN [k |-> "unset", v |-> <<>>]
+                    ELSE [k |-> "tuple", v |-> Sub(x, d.hashf)]
+MatchObs(c, d, x) == IF ~c.o.margs THEN [k |-> "absent", v |-> <<>>]
+                     ELSE IF HasSelf(x) THEN [k |-> "skip", v |-> <<>>]
+                     ELSE IF HasUnset(x, d.std) THEN [k |-> "unset", v |-> <<>>]
+                     ELSE [k |-> "captures", v |-> Sub(x, d.std)]
 \* one character per ordered pair: T / F, E = TypeError, U = reads a missing attribute, S = not observed
-CmpChar(c, op, objs, i, j) ==
-  IF HasSelf(objs[i]) \/ HasSelf(objs[j]) THEN "S"
+CmpChar(c, d, op, os, i, j) ==
+  IF HasSelf(os[i]) \/ HasSelf(os[j]) THEN "S"
   ELSE IF op = "eq" /\ ~c.o.eq THEN (IF i = j THEN "T" ELSE "F")      \* identity
   ELSE IF op # "eq" /\ ~c.o.order THEN "E"
-  ELSE IF HasUnset(objs[i], CmpF(c)) \/ HasUnset(objs[j], CmpF(c)) THEN "U"
-  ELSE IF Cmp(op, Sub(objs[i], CmpF(c)), Sub(objs[j], CmpF(c))) THEN "T" ELSE "F"
-RECURSIVE Mat(_, _, _, _)
-Mat(c, op, objs, k) == LET m == Len(objs) IN
-  IF k > m * m THEN "" ELSE CmpChar(c, op, objs, ((k - 1) \div m) + 1, ((k - 1) % m) + 1) \o Mat(c, op, objs, k + 1)
+  ELSE IF HasUnset(os[i], d.cmpf) \/ HasUnset(os[j], d.cmpf) THEN "U"
+  ELSE IF Cmp(op, Sub(os[i], d.cmpf), Sub(os[j], d.cmpf)) THEN "T" ELSE "F"
+RECURSIVE Mat(_, _, _, _, _)
+Mat(c, d, op, os, k) == LET m == Len(os) IN
+  IF k > m * m THEN "" ELSE CmpChar(c, d, op, os, ((k - 1) \div m) + 1, ((k - 1) % m) + 1) \o Mat(c, d, op, os, k + 1)
 
-Obs(c, objs) == [v  |-> objs,
-                 r  |-> [k \in 1..Len(objs) |-> ReprObs(c, objs[k])],
-                 h  |-> [k \in 1..Len(objs) |-> HashObs(c, objs[k])],
-                 m  |-> [k \in 1..Len(objs) |-> MatchObs(c, objs[k])],
-                 eq |-> Mat(c, "eq", objs, 1), lt |-> Mat(c, "lt", objs, 1), le |-> Mat(c, "le", objs, 1),
-                 gt |-> Mat(c, "gt", objs, 1), ge |-> Mat(c, "ge", objs, 1)]
+Obs(c, d, os) == [v  |-> os,
+                  r  |-> [k \in 1..Len(os) |-> ReprObs(c, d, os[k])],
+                  h  |-> [k \in 1..Len(os) |-> HashObs(c, d, os[k])],
+                  m  |-> [k \in 1..Len(os) |-> MatchObs(c, d, os[k])],
+                  eq |-> Mat(c, d, "eq", os, 1), lt |-> Mat(c, d, "lt", os, 1), le |-> Mat(c, d, "le", os, 1),
+                  gt |-> Mat(c, d, "gt", os, 1), ge |-> Mat(c, d, "ge", os, 1)]
 
 ---------------------------------------------------------------------------
 (* implementation-shaped: Cython/Compiler/Dataclass.py *)
@@ -200,13 +206,16 @@ ImplDefError(c) ==
   ELSE IF c.o.init /\ ImplSeenDefaultError(c, 1, FALSE) THEN "CompileError"
   ELSE "none"
 \* args of the generated __init__: `*` first when kw_only, then every init field
-ImplStd(c) == IF c.o.kwo THEN <<>> ELSE Sorted({i \in FIdx(c) : c.f[i].init})
-ImplKw(c)  == IF c.o.kwo THEN Sorted({i \in FIdx(c) : c.f[i].init}) ELSE <<>>
+ImplStd(c) == IF c.o.kwo THEN <<>> ELSE Idx(c, LAMBDA i : c.f[i].init)
+ImplKw(c)  == IF c.o.kwo THEN Idx(c, LAMBDA i : c.f[i].init) ELSE <<>>
 \* generate_match_args: every field that is not keyword-only (Field has no kw_only attribute)
-ImplMatchArgs(c) == IF c.o.margs THEN [k |-> "names", v |-> IF c.o.kwo THEN <<>> ELSE Sorted(FIdx(c))]
+ImplMatchArgs(c) == IF c.o.margs THEN [k |-> "names", v |-> IF c.o.kwo THEN <<>> ELSE [i \in 1..Len(c.f) |-> i]]
                     ELSE [k |-> "absent", v |-> <<>>]
 \* generate_hash_code without an explicit __hash__
 ImplHashAction(c) == IF ~c.o.uhash THEN (IF ~c.o.eq THEN "inherit" ELSE IF ~c.o.frozen THEN "none" ELSE "add") ELSE "add"
+\* the hashed fields: `field.compare.value if field.hash.value is None else field.hash.value` -- the default of
+\* Field.hash is a NoneNode, whose .value is the string "Py_None": the first branch is never taken
+ImplHashF(c) == Idx(c, LAMBDA i : c.f[i].hash # "false")
 \* generate_cmp_code: field by field
 RECURSIVE ImplCmp(_, _, _)
 ImplCmp(op, x, y) ==
@@ -217,9 +226,12 @@ ImplCmp(op, x, y) ==
 \* frozen: the attributes are declared `readonly` (ExprNodes.NameNode.declare_from_annotation)
 ImplFrozenError == "AttributeError"
 RefFrozenError == "FrozenInstanceError"
-\* init=False: no __init__ at all; tp_new of an extension type ignores its arguments, attributes are zero-initialised
-ImplBind(c, p, kw) == IF ~c.o.init THEN "ok" ELSE RefBind([c EXCEPT !.f = [i \in FIdx(c) |-> [c.f[i] EXCEPT !.kwo = FALSE]]], p, kw)
+\* init=False: no __init__ at all; tp_new of an extension type ignores its arguments
+ImplBind(c, p, kw) == IF ~c.o.init THEN "ok"
+                      ELSE RefBind(c, [std |-> ImplStd(c), kw |-> ImplKw(c)], p, kw)
 
+HzNames == <<"field-kw-only", "order-without-eq", "mutable-default-via-field", "init-false-in-match-args", "frozen", "no-init",
+            "hash-of-compare-false-field">>
 Hazards(c) ==
   (IF \E i \in FIdx(c) : c.f[i].kwo THEN {"field-kw-only"} ELSE {})
   \cup (IF c.o.order /\ ~c.o.eq THEN {"order-without-eq"} ELSE {})
@@ -227,31 +239,37 @@ Hazards(c) ==
   \cup (IF c.o.margs /\ ~c.o.kwo /\ \E i \in FIdx(c) : ~c.f[i].init /\ ~c.f[i].kwo THEN {"init-false-in-match-args"} ELSE {})
   \cup (IF c.o.frozen THEN {"frozen"} ELSE {})
   \cup (IF ~c.o.init THEN {"no-init"} ELSE {})
+  \cup (IF RefHashAction(c) = "add" /\ \E i \in FIdx(c) : c.f[i].hash = "none" /\ ~c.f[i].cmp THEN {"hash-of-compare-false-field"} ELSE {})
 
 ---------------------------------------------------------------------------
-VARIABLES cfg, objs, hist, open
-vars == <<cfg, objs, hist, open>>
+VARIABLES cfg, dv, objs, hist, open
+vars == <<cfg, dv, objs, hist, open>>
 
-DefOK == RefDefError(cfg) = "none"
+DefOK == dv.deferr = "none"
 \* some instance still shows a default that Python reads from the class attribute (init=False classes)
 ClassAttrLive(c, os) == ~c.o.init /\ \E k \in 1..Len(os) : \E i \in FIdx(c) : os[k][i] = DFLT
 Step(op, i, a, kw, s, res, fac, nobjs) ==
   [op |-> op, i |-> i, a |-> a, kw |-> kw, s |-> s, res |-> res, fac |-> fac, live |-> ClassAttrLive(cfg, nobjs),
-   obs |-> Obs(cfg, nobjs)]
+   obs |-> Obs(cfg, dv, nobjs)]
 
-Init == /\ cfg \in Cfgs /\ objs = <<>> /\ hist = <<>> /\ open = TRUE
+Init == /\ cfg \in Cfgs /\ dv = Derive(cfg) /\ objs = <<>> /\ hist = <<>> /\ open = TRUE
 
-Shapes(c) == {<<p, kw>> : p \in 0..(Len(c.f) + 1), kw \in SUBSET (0..Len(c.f))}
+\* a keyword set as ascending sequence (0 = the name that is no field)
+KwSeq(c, kw) == SelectSeq([i \in 1..(Len(c.f) + 1) |-> i - 1], LAMBDA x : x \in kw)
+\* call shapes: every positional count, keyword sets of at most MaxKw names plus "all parameters" and "all fields"
+Shapes(c, d) == {<<p, kw>> : p \in 0..(Len(c.f) + 1),
+                             kw \in {k \in SUBSET (0..Len(c.f)) : Cardinality(k) <= MaxKw \/ k = ParamsD(d) \/ k = FIdx(c)}}
 
 DoNew(p, kw, s) ==
   /\ DefOK /\ open /\ Len(hist) < MaxLen /\ Len(objs) < 2
-  /\ Canonical(cfg, p, kw) \/ (hist = <<>> /\ s = 0)
-  /\ LET res == RefBind(cfg, p, kw)
-         nobjs == IF res = "ok" THEN Append(objs, NewObj(cfg, p, kw, s)) ELSE objs
+  /\ Canonical(cfg, dv, p, kw) \/ hist = <<>>
+  /\ hist = <<>> => s = 0
+  /\ LET res == RefBind(cfg, dv, p, kw)
+         nobjs == IF res = "ok" THEN Append(objs, NewObj(cfg, dv, p, kw, s)) ELSE objs
      IN /\ objs' = nobjs
-        /\ hist' = Append(hist, Step("new", 0, p, Sorted(kw), s, res, IF res = "ok" THEN FacCalls(cfg, p, kw) ELSE 0, nobjs))
-  /\ open' = Canonical(cfg, p, kw)
-  /\ UNCHANGED cfg
+        /\ hist' = Append(hist, Step("new", 0, p, KwSeq(cfg, kw), s, res, IF res = "ok" THEN FacCalls(cfg, dv, p, kw) ELSE 0, nobjs))
+  /\ open' = Canonical(cfg, dv, p, kw)
+  /\ UNCHANGED <<cfg, dv>>
 
 DoSet(i, a, v) ==
   /\ DefOK /\ open /\ Len(hist) < MaxLen /\ i \in 1..Len(objs) /\ a \in FIdx(cfg)
@@ -259,12 +277,12 @@ DoSet(i, a, v) ==
          nobjs == IF cfg.o.frozen THEN objs ELSE [objs EXCEPT ![i][a] = v]
      IN /\ objs' = nobjs
         /\ hist' = Append(hist, Step("set", i, a, <<>>, v, res, 0, nobjs))
-  /\ UNCHANGED <<cfg, open>>
+  /\ UNCHANGED <<cfg, dv, open>>
 
 DoDel(i, a) ==     \* only on frozen classes (deleting a C-typed attribute is not a dataclass matter)
   /\ DefOK /\ open /\ Len(hist) < MaxLen /\ i \in 1..Len(objs) /\ a \in FIdx(cfg) /\ cfg.o.frozen
   /\ hist' = Append(hist, Step("del", i, a, <<>>, 0, RefFrozenError, 0, objs))
-  /\ UNCHANGED <<cfg, objs, open>>
+  /\ UNCHANGED <<cfg, dv, objs, open>>
 
 DoFill(i) ==       \* assign every missing attribute of instance i (value salt = i)
   /\ DefOK /\ open /\ Len(hist) < MaxLen /\ i \in 1..Len(objs)
@@ -274,7 +292,7 @@ DoFill(i) ==       \* assign every missing attribute of instance i (value salt =
                   ELSE [objs EXCEPT ![i] = [a \in FIdx(cfg) |-> IF objs[i][a] = UNSET THEN Val(a, i) ELSE objs[i][a]]]
      IN /\ objs' = nobjs
         /\ hist' = Append(hist, Step("fill", i, 0, <<>>, i, res, 0, nobjs))
-  /\ UNCHANGED <<cfg, open>>
+  /\ UNCHANGED <<cfg, dv, open>>
 
 DoSetSelf(i, a) == \* the instance refers to itself: repr must print `...` (terminal)
   /\ DefOK /\ open /\ Len(hist) < MaxLen /\ i \in 1..Len(objs) /\ a \in FIdx(cfg)
@@ -282,9 +300,9 @@ DoSetSelf(i, a) == \* the instance refers to itself: repr must print `...` (term
   /\ objs' = [objs EXCEPT ![i][a] = SELF]
   /\ hist' = Append(hist, Step("setself", i, a, <<>>, 0, "ok", 0, [objs EXCEPT ![i][a] = SELF]))
   /\ open' = FALSE
-  /\ UNCHANGED cfg
+  /\ UNCHANGED <<cfg, dv>>
 
-New == \E sh \in Shapes(cfg) : \E s \in Salts : DoNew(sh[1], sh[2], s)
+New == \E sh \in Shapes(cfg, dv) : \E s \in Salts : DoNew(sh[1], sh[2], s)
 Set == \E i \in 1..2 : \E a \in FIdx(cfg) : \E v \in SetVals : DoSet(i, a, v)
 Del == \E i \in 1..2 : \E a \in FIdx(cfg) : DoDel(i, a)
 Fill == \E i \in 1..2 : DoFill(i)
@@ -294,41 +312,46 @@ Spec == Init /\ [][Next]_vars
 
 ---------------------------------------------------------------------------
 (* invariants *)
+Last == hist[Len(hist)]
 TypeOK == /\ Len(objs) <= 2 /\ Len(hist) <= MaxLen
           /\ \A k \in 1..Len(objs) : DOMAIN objs[k] = FIdx(cfg)
-          /\ RefDefError(cfg) \in {"none", "ValueError", "TypeError"}
+          /\ dv.deferr \in {"none", "ValueError", "TypeError"}
           /\ ~DefOK => hist = <<>>
 
 \* the rule form of the __hash__ decision and the PEP 557 table agree; every triple has exactly one action
-HashTableTotal == /\ RefHashAction(cfg) \in {"add", "none", "inherit"}
+HashTableTotal == hist = <<>> =>
+                  /\ RefHashAction(cfg) \in {"add", "none", "inherit"}
                   /\ ImplHashAction(cfg) = RefHashAction(cfg)
                   /\ DOMAIN HashTable = BOOLEAN \X BOOLEAN \X BOOLEAN
 
 \* a call that binds gives every __init__ parameter exactly one source and leaves no parameter unset;
-\* a call that does not bind has a nameable reason
+\* a call that does not bind has a nameable reason (checked on the step just taken)
 BindConflictFree ==
-  \A k \in 1..Len(hist) : hist[k].op = "new" /\ cfg.o.init =>
-    LET p == hist[k].a  kw == Range(hist[k].kw) IN
-    IF hist[k].res = "ok"
-    THEN /\ \A i \in Params(cfg) : Cardinality(Sources(cfg, p, kw, i)) = 1
-         /\ kw \subseteq Params(cfg) /\ p <= Len(StdInit(cfg))
-         /\ \A i \in Params(cfg) : NewObj(cfg, p, kw, hist[k].s)[i] # UNSET
-    ELSE \/ p > Len(StdInit(cfg)) \/ ~(kw \subseteq Params(cfg))
-         \/ \E i \in Params(cfg) : Cardinality(Sources(cfg, p, kw, i)) # 1
+  (hist # <<>> /\ Last.op = "new" /\ cfg.o.init) =>
+    LET p == Last.a  kw == Range(Last.kw)  P == ParamsD(dv) IN
+    IF Last.res = "ok"
+    THEN /\ \A i \in P : Cardinality(Sources(cfg, dv, p, kw, i)) = 1
+         /\ kw \subseteq P /\ p <= Len(dv.std)
+         /\ \A i \in P : objs[Len(objs)][i] # UNSET
+    ELSE \/ p > Len(dv.std) \/ ~(kw \subseteq P)
+         \/ \E i \in P : Cardinality(Sources(cfg, dv, p, kw, i)) # 1
 
 \* __init__ lists positional parameters before keyword-only ones, each init field exactly once, and (when the
 \* definition is accepted) no positional parameter without default follows one with a default
-SignatureOK == /\ Range(StdInit(cfg)) \cap Range(KwInit(cfg)) = {}
-               /\ Params(cfg) = {i \in FIdx(cfg) : cfg.f[i].init}
+SignatureOK == hist = <<>> =>
+               /\ Range(dv.std) \cap Range(dv.kw) = {}
+               /\ ParamsD(dv) = {i \in FIdx(cfg) : cfg.f[i].init}
+               /\ \A j, k \in 1..Len(dv.std) : j < k => dv.std[j] < dv.std[k]
+               /\ \A j, k \in 1..Len(dv.kw) : j < k => dv.kw[j] < dv.kw[k]
                /\ (DefOK /\ cfg.o.init) => ~NonDefaultAfterDefault(cfg)
-               /\ RefMatchArgs(cfg).k = "names" => Range(RefMatchArgs(cfg).v) \subseteq Params(cfg)
+               /\ dv.margs.k = "names" => Range(dv.margs.v) \subseteq ParamsD(dv)
 
 \* tuple comparison: recursive and declarative definitions agree, the order is total, and the
 \* field-by-field loop that Cython generates computes the same relation
 OrderLaws ==
   \A i, j \in 1..Len(objs) :
-    (~HasUnset(objs[i], CmpF(cfg)) /\ ~HasUnset(objs[j], CmpF(cfg)) /\ ~HasSelf(objs[i]) /\ ~HasSelf(objs[j])) =>
-    LET x == Sub(objs[i], CmpF(cfg))  y == Sub(objs[j], CmpF(cfg)) IN
+    (~HasUnset(objs[i], dv.cmpf) /\ ~HasUnset(objs[j], dv.cmpf) /\ ~HasSelf(objs[i]) /\ ~HasSelf(objs[j])) =>
+    LET x == Sub(objs[i], dv.cmpf)  y == Sub(objs[j], dv.cmpf) IN
     /\ TupLt(x, y) = LexLt(x, y)
     /\ Cardinality({r \in {"lt", "eq", "gt"} : Cmp(r, x, y)}) = 1
     /\ Cmp("le", x, y) = (Cmp("lt", x, y) \/ Cmp("eq", x, y))
@@ -338,33 +361,34 @@ OrderLaws ==
 \* equal instances hash equal whenever the hashed fields are among the compared ones
 EqHashCoherent ==
   \A i, j \in 1..Len(objs) :
-    (cfg.o.eq /\ RefHashAction(cfg) = "add" /\ Range(HashF(cfg)) \subseteq Range(CmpF(cfg))
-     /\ ~HasUnset(objs[i], CmpF(cfg)) /\ ~HasUnset(objs[j], CmpF(cfg))
-     /\ Sub(objs[i], CmpF(cfg)) = Sub(objs[j], CmpF(cfg))) => Sub(objs[i], HashF(cfg)) = Sub(objs[j], HashF(cfg))
+    (cfg.o.eq /\ dv.hact = "add" /\ Range(dv.hashf) \subseteq Range(dv.cmpf)
+     /\ ~HasUnset(objs[i], dv.cmpf) /\ ~HasUnset(objs[j], dv.cmpf)
+     /\ Sub(objs[i], dv.cmpf) = Sub(objs[j], dv.cmpf)) => Sub(objs[i], dv.hashf) = Sub(objs[j], dv.hashf)
 
 \* the transcription of Dataclass.py agrees with the reference exactly off the hazards
-ImplVsRef ==
+ImplVsRefCfg == hist = <<>> =>
   LET H == Hazards(cfg) IN
-  /\ (ImplDefError(cfg) = "none" /\ RefDefError(cfg) # "none") => H \cap {"order-without-eq", "mutable-default-via-field"} # {}
-  /\ (ImplDefError(cfg) # "none" /\ RefDefError(cfg) = "none") => "field-kw-only" \in H
+  /\ (ImplDefError(cfg) = "none" /\ dv.deferr # "none") => H \cap {"order-without-eq", "mutable-default-via-field"} # {}
+  /\ (ImplDefError(cfg) # "none" /\ dv.deferr = "none") => "field-kw-only" \in H
   /\ (H \cap {"order-without-eq", "mutable-default-via-field", "field-kw-only"} = {}) =>
-         ((ImplDefError(cfg) = "none") <=> (RefDefError(cfg) = "none"))
-  /\ ("order-without-eq" \in H /\ ImplDefError(cfg) = "none") => RefDefError(cfg) = "ValueError"
+         ((ImplDefError(cfg) = "none") <=> (dv.deferr = "none"))
+  /\ ("order-without-eq" \in H /\ ImplDefError(cfg) = "none") => dv.deferr = "ValueError"
   /\ "field-kw-only" \in H => ImplDefError(cfg) # "none"
-  /\ "field-kw-only" \notin H => (ImplStd(cfg) = StdInit(cfg) /\ ImplKw(cfg) = KwInit(cfg))
-  /\ (H \cap {"field-kw-only", "init-false-in-match-args"} = {}) => ImplMatchArgs(cfg) = RefMatchArgs(cfg)
-  /\ ("init-false-in-match-args" \in H /\ "field-kw-only" \notin H) => ImplMatchArgs(cfg) # RefMatchArgs(cfg)
-  /\ \A k \in 1..Len(hist) : (hist[k].op = "new" /\ H \cap {"field-kw-only", "no-init"} = {}) =>
-         ImplBind(cfg, hist[k].a, Range(hist[k].kw)) = hist[k].res
-  /\ \A k \in 1..Len(hist) : (hist[k].op = "new" /\ "no-init" \in H /\ hist[k].res # "ok") =>
-         ImplBind(cfg, hist[k].a, Range(hist[k].kw)) # hist[k].res
+  /\ "field-kw-only" \notin H => (ImplStd(cfg) = dv.std /\ ImplKw(cfg) = dv.kw)
+  /\ (H \cap {"field-kw-only", "init-false-in-match-args"} = {}) => ImplMatchArgs(cfg) = dv.margs
+  /\ ("init-false-in-match-args" \in H /\ "field-kw-only" \notin H) => ImplMatchArgs(cfg) # dv.margs
   /\ ("frozen" \in H) => ImplFrozenError # RefFrozenError
+  /\ (dv.hact = "add" /\ "hash-of-compare-false-field" \notin H) => ImplHashF(cfg) = dv.hashf
+  /\ ("hash-of-compare-false-field" \in H) => ImplHashF(cfg) # dv.hashf
+ImplVsRefStep == (hist # <<>> /\ Last.op = "new") =>
+  LET H == Hazards(cfg) IN
+  /\ (H \cap {"field-kw-only", "no-init"} = {}) => ImplBind(cfg, Last.a, Range(Last.kw)) = Last.res
+  /\ ("no-init" \in H /\ Last.res # "ok") => ImplBind(cfg, Last.a, Range(Last.kw)) # Last.res
 
 Leaf == hist # <<>> /\ (~open \/ Len(hist) = MaxLen \/ (Len(cfg.f) = 0 /\ Len(objs) = 2))
-HzNames == <<"field-kw-only", "order-without-eq", "mutable-default-via-field", "init-false-in-match-args", "frozen", "no-init">>
-HzSeq(c) == Sorted({k \in 1..6 : HzNames[k] \in Hazards(c)})
-CfgRecord(c) == [id |-> c.id, kind |-> "cfg", deferr |-> RefDefError(c), margs |-> RefMatchArgs(c),
-                 hz |-> [k \in 1..Len(HzSeq(c)) |-> HzNames[HzSeq(c)[k]]],
+HzSeq(c) == SelectSeq(HzNames, LAMBDA h : h \in Hazards(c))
+CfgRecord(c) == [id |-> c.id, kind |-> "cfg", deferr |-> RefDefError(c), margs |-> RefMatchArgs(c), hz |-> HzSeq(c),
+                 std |-> StdInit(c), hashf |-> Derive(c).hashf,
                  bare |-> [i \in FIdx(c) |-> Bare(c.f[i])], impl_deferr |-> ImplDefError(c)]
 \* cases mode: one record per configuration (initial state) and one per leaf history
 Publish == Mode = "cases" =>
